@@ -71,6 +71,30 @@ def pool():
     return _pool
 
 
+def pmap(fn, argslist, tmo_ms):
+    """pool().map with a watchdog: a solver call that ignores its own time limit (seen once with the in-process z3 5.1: a worker
+    spinning for half an hour) must not hang the check.  Every task gets the time a full queue of such tasks could legitimately need;
+    what is still missing then is answered `unknown` (never a verdict) and the pool is replaced."""
+    if not argslist:
+        return []
+    per = tmo_ms / 1000.0 + 10.0
+    deadline = time.time() + (len(argslist) // JOBS + 2) * per * 1.5 + 30.0
+    handles = [pool().apply_async(fn, (a,)) for a in argslist]
+    out, lost = [], False
+    for h in handles:
+        try:
+            out.append(h.get(timeout=max(0.1, deadline - time.time())))
+        except mp.TimeoutError:
+            out.append(("unknown", per, "", "watchdog: the solver process did not answer within its hard limit"))
+            lost = True
+        except Exception as e:   # noqa   (a worker died)
+            out.append(("error", 0.0, "", repr(e)))
+            lost = True
+    if lost:
+        close()
+    return out
+
+
 def close():
     global _pool
     if _pool is not None:
@@ -107,7 +131,7 @@ def discharge(obls, timeout_ms=60000, second_solver=False, quick_ms=4000):
     def run(fn, backend, items, tmo, variant="all"):
         if not items:
             return []
-        res = pool().map(fn, [(text(o, variant), tmo, variant == "all") for o in items], chunksize=1)
+        res = pmap(fn, [(text(o, variant), tmo, variant == "all") for o in items], tmo)
         rest = []
         for o, (r, secs, model, reason) in zip(items, res):
             o.seconds += secs
@@ -172,7 +196,7 @@ def discharge(obls, timeout_ms=60000, second_solver=False, quick_ms=4000):
     if second_solver:
         # independent re-check of everything the first solver discharged (thorough tier), same hypothesis selection
         first = [o for o in obls if o.verdict == "discharged" and o.backend == "z3-5.1.0"]
-        res = pool().map(_solve_z3cli, [(text(o, getattr(o, "hyps_used", "all")), 30000, False) for o in first], chunksize=1)
+        res = pmap(_solve_z3cli, [(text(o, getattr(o, "hyps_used", "all")), 30000, False) for o in first], 30000)
         for o, (r, secs, _, _) in zip(first, res):
             o.second = r
             if r == "sat" and getattr(o, "hyps_used", "all") == "all":
@@ -209,5 +233,5 @@ def check_sat(formulas, timeout_ms=3000):
         s = z3.Solver()
         s.add(*hyps)
         texts.append(s.to_smt2())
-    res = pool().map(_solve_z3py, [(t, timeout_ms, False) for t in texts], chunksize=1)
+    res = pmap(_solve_z3py, [(t, timeout_ms, False) for t in texts], timeout_ms)
     return [r[0] for r in res]
